@@ -38,6 +38,17 @@ def product():
                     "why": "plain assignment in the body of `%s` reaches the enclosing binding" % head})
         out.append({"src": "func f(n) { " + pre + head + " { var n = 0" + tail + " }; return n }; f(7)", "field": "result", "want": "i:7",
                     "why": "var in the body of `%s` does not overwrite a parameter" % head})
+    # var with several names binds every one of them in the current scope, whatever the shape of the right-hand side
+    for rhs, vals in (("[10, 20]", (10, 20)), ("10, 20", (10, 20)), ("pair()", (7, 3))):
+        pre = "func pair() { return 7, 3 }; " if "pair" in rhs else ""
+        out.append({"src": pre + "a = 1; b = 2; if true { var a, b = %s }; [a, b]" % rhs, "field": "result", "want": "[i:1,i:2]",
+                    "why": "`var a, b = %s` in a block shadows, it does not assign to the outer names" % rhs})
+        out.append({"src": pre + "a = 1; func f() { var a, b = %s; return a }; [f(), a]" % rhs, "field": "result", "want": "[i:%d,i:1]" % vals[0],
+                    "why": "`var a, b = %s` in a function binds locals" % rhs})
+        out.append({"src": pre + "a = 1; g = func() { return a }; for i in [1] { var a, b = %s }; g()" % rhs, "field": "result", "want": "i:1",
+                    "why": "`var a, b = %s` in a loop body is not seen by a closure over the outer name" % rhs})
+        out.append({"src": pre + "func f(n) { var a, b = %s; if n > 0 { f(n - 1) }; return a + n }; f(2)" % rhs, "field": "result", "want": "i:%d" % (vals[0] + 2),
+                    "why": "`var a, b = %s`: recursive invocations have their own bindings" % rhs})
     # every construct that opens scopes hands back the scope it started in - also when no branch is taken
     for c in CONSTRUCTS:
         name = c.replace("\n", " ")[:40]
